@@ -1,0 +1,26 @@
+//go:build verif
+
+package staker
+
+import (
+	"github.com/vechain/thor/v2/builtin/staker/aggregation"
+	"github.com/vechain/thor/v2/thor"
+)
+
+// Thin accessors to unexported services for the verification harness (no logic).
+
+func (s *Staker) VerifWithdrawableStake() (uint64, error) {
+	return s.globalStatsService.GetWithdrawableStake()
+}
+
+func (s *Staker) VerifCooldownStake() (uint64, error) {
+	return s.globalStatsService.GetCooldownStake()
+}
+
+func (s *Staker) VerifAggregation(validator thor.Address) (*aggregation.Aggregation, error) {
+	return s.aggregationService.GetAggregation(validator)
+}
+
+func (s *Staker) VerifRenewalList() ([]thor.Address, error) {
+	return s.validationService.VerifRenewalList()
+}
